@@ -19,7 +19,7 @@ RULE = ('A case is a batch of graph-lab hypernym digraphs (as in C13: edge masks
         'zero-IC special cases frequent) or wn.ic.compute() over a drawn corpus of one word per '
         'synset. Families: every labelled digraph on n<=3 nodes in three labelled variants, '
         'Hypothesis-drawn 4-node graphs, random 5-8 node graphs (DAG-biased, cycle-biased, forest, '
-        'diamond-stack, layered). For every ordered pair (all pairs for n<=5, 16 drawn pairs '
+        'diamond-stack, layered, two-LCS gadget). For every ordered pair (all pairs for n<=5, 16 drawn pairs '
         'above) and simulate_root in {False, True}: path, wup, lch, and res/jcn/lin per weight '
         'assignment are compared with the documented formulas evaluated on brute-force reference '
         'graph functions (value must lie in the set of formula values over all lowest common '
@@ -449,6 +449,12 @@ def _random_big(tier):
     return G.batch_of(_decorated(G.random_graph(5, 8, _POS_KINDS, limit=80), 1), (1, 3, 2, 3, 4))
 
 
+def _two_lcs(tier):
+    return G.batch_of(_decorated(G.random_graph(5, 7, ('n', 'n', 'as'), limit=80,
+                                                families=('two-lcs', 'layered')), 1),
+                      (1, 3, 2, 3, 4))
+
+
 SUBS = [
     Sub('enum-n<=3', oracle, _classify, enumerate=_enum_small,
         exhaustive_note='all 530 labelled digraphs on 1-3 nodes in three variants (nouns with '
@@ -461,6 +467,9 @@ SUBS = [
         budget={'quick': 20, 'thorough': 85}, sample=_sample, purge_every=8,
         require_tags=('>=2-LCS', 'a/s-mix', 'mixed-pos-classes')),
     Sub('random-n=5..8', oracle, _classify, strategy=_random_big,
-        budget={'quick': 15, 'thorough': 40}, sample=_sample, purge_every=8,
+        budget={'quick': 25, 'thorough': 40}, sample=_sample, purge_every=8,
         require_tags=('>=2-LCS', '>=2-LCS-at-different-distances', 'family:layered')),
+    Sub('several-lcs', oracle, _classify, strategy=_two_lcs,
+        budget={'quick': 30, 'thorough': 60}, sample=_sample, purge_every=8,
+        require_tags=('>=2-LCS-at-different-distances', 'family:two-lcs')),
 ]
